@@ -195,16 +195,16 @@ def run(ctx, ck) -> None:
         ck.obs.append(o)
     ck.floor('M8', sum(1 for o in ck.obs if o.rule.endswith('M8')), 28, 'rule-case identities')
     # M9: a chain written with @ is the product of its factors in the written order, however it is parenthesised: the
-    # construction-time behaviour of the composition (shared with C02.S1/S2/S5, restricted to the @ dunders)
+    # construction-time behaviour of the composition (shared with C02.S2/S5, restricted to the @ dunders)
     from . import c02
 
     sub = type(ck)(ck.pid)
     c02.run(ctx, sub)
     for o in sub.obs:
-        if o.rule.endswith(('S1', 'S2', 'S5')) and 'matmul__' in o.construct:
+        if o.rule.endswith(('S2', 'S5')) and 'matmul__' in o.construct:
             o.rule = f'{ck.pid}.M9'
             ck.obs.append(o)
-    ck.floor('M9', sum(1 for o in ck.obs if o.rule.endswith('M9')), 10, 'composition-construction obligations')
+    ck.floor('M9', sum(1 for o in ck.obs if o.rule.endswith('M9')), 6, 'composition-construction obligations')
 
 
 def _call_create(pol: Polarimetry, cls: ClassInfo, angles: Any, stokes: str) -> Any:
